@@ -2046,6 +2046,9 @@ fn main() {
     let mut sets = vec![(vec![0usize, 1, 2], 3usize, placements3, 3usize)];
     sets.push((vec![0, 3, 5], 3, vec![Placement::Inline, Placement::Migrate], 3));
     sets.push((vec![4, 6, 2], 3, vec![Placement::Inline], 3));
+    // two parties x 4 operations each (two seals / two opens per context), every operation on another worker than the
+    // previous one: a context that is used on several threads during its life
+    sets.push((vec![0, 4], 4, vec![Placement::Migrate, Placement::Pinned, Placement::Split(5), Placement::Split(10)], 2));
     // error paths in between: a party whose operations all fail, next to a sender and a receiver on the same KEM
     sets.push((vec![7, 0, 4], 3, vec![Placement::Inline, Placement::Migrate], 3));
     if t {
